@@ -64,25 +64,18 @@ def power(x1: PolyLike, x2: PolyLike, **kwargs: Any) -> ndpoly:
         for _ in range(x2.item()):
             out = numpoly.multiply(out, x1, **kwargs)
 
-    elif x1.shape:
-        if x2.shape[-1] == 1:
-            if x1.shape[-1] == 1:
-                out = numpoly.power(x1.T[0].T, x2.T[0].T).T[numpy.newaxis].T
-            else:
-                out = numpoly.concatenate(
-                    [power(x, x2.T[0])[numpy.newaxis] for x in x1.T], axis=0
-                ).T
-        elif x1.shape[-1] == 1:
-            out = numpoly.concatenate(
-                [power(x1.T[0].T, x.T).T[numpy.newaxis] for x in x2.T], axis=0
-            ).T
-        else:
-            out = numpoly.concatenate(
-                [power(x1_, x2_).T[numpy.newaxis] for x1_, x2_ in zip(x1.T, x2.T)],
-                axis=0,
-            ).T
     else:
+        shape = numpy.broadcast_shapes(x1.shape, x2.shape)
+        index = numpy.arange(x1.size, dtype=int).reshape(x1.shape)
+        bases = x1.ravel()[numpy.broadcast_to(index, shape).ravel()]
+        exponents = numpy.broadcast_to(x2, shape).ravel()
+        if not exponents.size:
+            return numpoly.polynomial(bases.reshape(shape))
         out = numpoly.concatenate(
-            [power(x1, x.T).T[numpy.newaxis] for x in x2.T], axis=0
-        ).T
+            [
+                power(base, exponent, **kwargs)[numpy.newaxis]
+                for base, exponent in zip(bases, exponents)
+            ],
+            axis=0,
+        ).reshape(shape)
     return numpoly.polynomial(out)
